@@ -33,6 +33,7 @@ THEOREMS = [
     NS + "C16_tokenize_render",
     NS + "C16_partial",
     NS + "C16_int_ops",
+    NS + "C16_int_eval",
 ]
 ASSUMPTIONS = [
     "SymPy (construction, automatic simplification, str, subs, simplify, floor/Mod/Max arithmetic) is external: "
@@ -140,6 +141,44 @@ def ref_eval(t, env):
 
 def _g(x):
     return None if x is None else _guard(x)
+
+
+def in_int_fragment(t) -> bool:
+    if t[0] in ("n", "s"):
+        return True
+    if t[0] == "u":
+        return t[1] != "sqrt" and in_int_fragment(t[2])
+    if t[0] == "b":
+        return t[1] not in ("div", "pow") and in_int_fragment(t[2]) and in_int_fragment(t[3])
+    return False
+
+
+def py_int_eval(t, env):
+    """Python's own integer arithmetic on the integer fragment (`//`, `%` of int); None = ZeroDivisionError"""
+    tag = t[0]
+    if tag == "n":
+        return t[1]
+    if tag == "s":
+        return env[t[1]]
+    if tag == "u":
+        x = py_int_eval(t[2], env)
+        if x is None:
+            return None
+        op = t[1]
+        if abs(x) > LIMIT:
+            raise TooBig
+        return {"neg": lambda: -x, "floor": lambda: math.floor(x), "ceil": lambda: math.ceil(x), "trunc": lambda: math.trunc(x),
+                "abs": lambda: abs(x), "sign": lambda: (x > 0) - (x < 0)}[op]()
+    x, y = py_int_eval(t[2], env), py_int_eval(t[3], env)
+    if x is None or y is None:
+        return None
+    if abs(x) > LIMIT or abs(y) > LIMIT:
+        raise TooBig
+    op = t[1]
+    if op in ("fdiv", "mod") and y == 0:
+        return None
+    return {"add": lambda: x + y, "sub": lambda: x - y, "mul": lambda: x * y, "fdiv": lambda: x // y, "mod": lambda: x % y,
+            "max": lambda: max(x, y), "min": lambda: min(x, y)}[op]()
 
 
 def tree_syms(t, acc=None):
@@ -1185,6 +1224,20 @@ class TreeCase:
         want = [fr(r) for r in self.ref]
         if lean_vals != want:
             P.disagree("Lean eval of the tree != exact Fraction arithmetic (harness oracle)", self.case_obj, lean_vals, want)
+        if in_int_fragment(t):
+            # integer fragment: Lean evalInt (Int.fdiv / Int.fmod) vs Python's own int arithmetic
+            try:
+                pyints = [py_int_eval(t, e) for e in self.envs]
+            except TooBig:
+                pyints = None
+            if pyints is not None:
+                P.count("int_fragment=checked")
+                if ev.get("int") != pyints:
+                    P.disagree("Lean evalInt != Python integer arithmetic", self.case_obj, ev.get("int"), pyints)
+                if [None if v is None else [v, 1] for v in pyints] != want:
+                    P.disagree("harness: Python int arithmetic != Fraction arithmetic on the integer fragment", self.case_obj, pyints, want)
+        elif ev.get("int") is not None:
+            P.disagree("Lean intFrag accepts a tree outside the integer fragment", self.case_obj, ev.get("int"), None)
         if self.with_pp:
             self._finish_pp(P, next(it), want)
         self._finish_rest(P, it, lean_vals)
